@@ -55,7 +55,7 @@ CONSTANTS Node,              \* set of strings "n1".."n4"
           MaxVer, MaxGen,    \* heartbeat bounds
           MaxState,          \* member states 0..MaxState (0 = healthy)
           MaxMsgs,           \* messages in flight
-          Topos,             \* subset of {"self", "hub", "full", "out", "skew"}: initial knowledge
+          Topos,             \* subset of {"self","hub","full","out","skew","chain","part"}
           ZeroDigestWindow   \* TRUE = code as written
 VARIABLES view,      \* view[n]: function from the members n knows to records [g, v, s]
           net,       \* set of in-flight messages
@@ -94,14 +94,24 @@ Involved(n) == \E m \in net : m.from = n \/ m.to = n
 
 \* the hub of the "hub"/"out" topologies: a fixed arbitrary node
 HubOf == CHOOSE h \in Node : TRUE
+\* position of a node name in the fixed order n1 < n2 < n3 < n4 (strings are unordered in TLC)
+Order == <<"n1", "n2", "n3", "n4">>
+Idx(n) == CHOOSE i \in 1..4 : Order[i] = n
 InitKnown(t, n) ==
   CASE t = "self" -> {n}
     [] t = "full" -> Node
     [] t = "hub"  -> IF n = HubOf THEN {n} ELSE {n, HubOf}   \* spokes know the hub only
     [] t = "out"  -> IF n = HubOf THEN Node ELSE {n}         \* only the hub knows anybody
     [] t = "skew" -> Node    \* everybody knows everybody, each is ahead on its own record
+    [] t = "chain" -> {k \in Node : Idx(k) \in {Idx(n), Idx(n) + 1}}   \* n_i knows n_i, n_i+1
+    [] t = "part" -> CASE Idx(n) = 1 -> {k \in Node : Idx(k) <= 3}      \* partially overlapping:
+                       [] Idx(n) = 2 -> {k \in Node : Idx(k) \in {2, 3}} \* n1 {1,2,3}, n2 {2,3},
+                       [] Idx(n) = 3 -> {n}                              \* n3 {3}, n4 {3,4}
+                       [] OTHER -> {k \in Node : Idx(k) >= 3}
+\* in "skew", "chain" and "part" every node has already ticked once (own record (0,1), held by
+\* the others at (0,0)), so the ZeroDigestWindow cannot mask anything else
 InitView(t) == [n \in Node |-> [k \in InitKnown(t, n) |->
-                  IF t = "skew" /\ k = n /\ MaxVer > 0 THEN Rec(0, 1, 0) ELSE Rec(0, 0, 0)]]
+                  IF t \in {"skew", "chain", "part"} /\ k = n /\ MaxVer > 0 THEN Rec(0, 1, 0) ELSE Rec(0, 0, 0)]]
 Init == /\ \E t \in Topos : view = InitView(t)
         /\ net = {} /\ exchanged = {} /\ stale = {}
 
